@@ -150,6 +150,45 @@ Proof.
   intros. destruct (exec_db F o oth IReadIds c i) as [H|[[H _]|[[H _]|[H _]]]]; try discriminate. exact H.
 Qed.
 
+Definition terminal (x : instr) : Prop := match x with ICommit | IFail _ => True | _ => False end.
+Definition terminal_last (l : list instr) : Prop := exists pre t, l = pre ++ [t] /\ terminal t.
+
+Lemma terminal_last_tail : forall x r, terminal_last (x :: r) -> (r = [] /\ terminal x) \/ terminal_last r.
+Proof.
+  intros x r [pre [t [H Ht]]]. destruct pre as [|a pre]; simpl in H.
+  - injection H as -> ->. left. split; [reflexivity|exact Ht].
+  - injection H as -> ->. right. exists pre, t. split; [reflexivity|exact Ht].
+Qed.
+Lemma plan_terminal_last : forall o ver ids ms, terminal_last (plan o ver ids ms).
+Proof.
+  intros o ver ids ms. induction ms as [|m ms IH]; simpl.
+  - exists [], ICommit. split; [reflexivity|exact I].
+  - destruct (N.ltb ver (m_version m)); [|exact IH].
+    destruct (id_check ids m).
+    + exists [], (IFail m0). split; [reflexivity|exact I].
+    + destruct IH as [pre [t [H Ht]]]. rewrite H.
+      exists (map IExec (stmts_of o m) ++ IInsert (m_version m) (m_id m) :: pre), t.
+      split; [|exact Ht]. rewrite <- app_assoc. reflexivity.
+Qed.
+Lemma terminal_finishes : forall F o oth x c i, terminal x -> i_res (snd (exec F o oth x c i)) <> None.
+Proof.
+  intros F o oth x c i Hx. destruct x; simpl in Hx; try destruct Hx; simpl.
+  - destruct (faulty F i); simpl; [discriminate|].
+    destruct (lock_leb Reserved (i_lock i)); [destruct (can_exclusive oth)|]; simpl; discriminate.
+  - discriminate.
+Qed.
+
+Lemma exec_db_same_or_exclusive : forall F o oth x c i,
+  fst (exec F o oth x c i) = c \/ can_exclusive oth = true.
+Proof.
+  intros F o oth x c i.
+  destruct x; simpl;
+    repeat match goal with
+           | |- context [if ?b then _ else _] => destruct b eqn:?; simpl
+           | |- context [match ?e with _ => _ end] => destruct e eqn:?; simpl
+           end; first [left; reflexivity | right; auto using can_autocommit_exclusive].
+Qed.
+
 Section Conc.
 Variables (o : opts) (ms : list mig) (k : N) (d : dbstate).
 Hypothesis Hasc : ascending ms = true.
@@ -273,7 +312,8 @@ Definition pinv (c : dbstate) (p : pinst) : Prop :=
   | None =>
       match i_buf (p_inst p) with
       | None => i_lock (p_inst p) = Unlocked /\ prelude_suffix (p_todo p)
-      | Some _ => i_lock (p_inst p) <> Unlocked /\ (p_todo p = [IReadIds] \/ Forall txn_instr (p_todo p)) /\
+      | Some _ => i_lock (p_inst p) <> Unlocked /\
+                  (p_todo p = [IReadIds] \/ (Forall txn_instr (p_todo p) /\ terminal_last (p_todo p))) /\
                   (fst (finish c p) = c \/ fst (finish c p) = FIN)
       end
   end.
@@ -286,13 +326,13 @@ Proof.
 Qed.
 
 Lemma settle_inv : forall c i1 l b1,
-  i_res i1 = None -> i_buf i1 = Some b1 -> i_lock i1 <> Unlocked -> Forall txn_instr l ->
+  i_res i1 = None -> i_buf i1 = Some b1 -> i_lock i1 <> Unlocked -> Forall txn_instr l -> terminal_last l ->
   (fst (run_list [] o [] l (c, i1)) = c \/ fst (run_list [] o [] l (c, i1)) = FIN) ->
   pinv c (settle (mkP i1 l [])).
 Proof.
-  intros c i1 l b1 Hr Hb Hl Hf Hfin. unfold settle; simpl. rewrite Hr.
+  intros c i1 l b1 Hr Hb Hl Hf Ht Hfin. unfold settle; simpl. rewrite Hr.
   assert (Hkeep : pinv c (mkP i1 l [])).
-  { split; [reflexivity|]. simpl. rewrite Hr, Hb. split; [exact Hl|]. split; [right; exact Hf|].
+  { split; [reflexivity|]. simpl. rewrite Hr, Hb. split; [exact Hl|]. split; [right; split; [exact Hf|exact Ht]|].
     rewrite finish_txn by exact Hf. exact Hfin. }
   destruct l as [|x l]; [exact Hkeep|]. destruct x; try exact Hkeep.
   split; [reflexivity|]. simpl. split; reflexivity.
@@ -307,15 +347,15 @@ Qed.
 Lemma pstep_inv : forall oth c p,
   reach c -> pinv c p ->
   reach (fst (pstep o ms oth c p)) /\ pinv (fst (pstep o ms oth c p)) (snd (pstep o ms oth c p)) /\
-  (fst (pstep o ms oth c p) <> c -> can_exclusive oth = true).
+  (fst (pstep o ms oth c p) = c \/ can_exclusive oth = true).
 Proof.
   intros oth c p Hc [Hf Hp]. unfold pstep. rewrite Hf.
   destruct (i_res (p_inst p)) eqn:Er.
-  { simpl. split; [exact Hc|]. split; [split; [exact Hf|rewrite Er; exact Hp]|]. intros H; exfalso; apply H; reflexivity. }
+  { simpl. split; [exact Hc|]. split; [split; [exact Hf|rewrite Er; exact Hp]|]. left; reflexivity. }
   destruct (p_todo p) as [|x r] eqn:Et.
-  { simpl. split; [exact Hc|]. split; [split; [exact Hf|rewrite Er, Et; exact Hp]|]. intros H; exfalso; apply H; reflexivity. }
+  { simpl. split; [exact Hc|]. split; [split; [exact Hf|rewrite Er, Et; exact Hp]|]. left; reflexivity. }
   cbv zeta. simpl fst. simpl snd.
-  split; [|split]; [| |apply exec_db_change_exclusive].
+  split; [|split]; [| |apply exec_db_same_or_exclusive].
   - (* reach *)
     destruct (exec_db [] o oth x c (p_inst p)) as [H|[[_ H]|[[_ H]|[Hx H]]]].
     + rewrite H. exact Hc.
@@ -324,8 +364,6 @@ Proof.
     + (* a commit went through *)
       subst x. destruct (i_buf (p_inst p)) as [b|] eqn:Eb.
       * destruct Hp as [Hl [Hshape Hfin]].
-        assert (Htx : Forall txn_instr (ICommit :: r)).
-        { destruct Hshape as [Hs|Hs]; [discriminate|exact Hs]. }
         destruct (exec_vs_solo o oth ICommit c (p_inst p) b Eb (or_introl I)) as [He|[_ [He _]]];
           [|rewrite He in H; discriminate].
         unfold finish in Hfin. rewrite Et in Hfin.
@@ -350,10 +388,11 @@ Proof.
            destruct (i_res (snd E)) eqn:Er1.
            ++ destruct (Hclean _ Er eq_refl) as [A B]. eapply pinv_finished; eassumption.
            ++ destruct (Hrun eq_refl) as [A [B C]]. cbv iota.
-              eapply settle_inv; [exact Er1 | exact B | rewrite C; exact Hl | apply plan_txn_instr | ].
+              eapply settle_inv; [exact Er1 | exact B | rewrite C; exact Hl | apply plan_txn_instr | apply plan_terminal_last | ].
               rewrite (surjective_pairing E) in Hfin. rewrite A in Hfin. exact Hfin.
         -- eapply pinv_finished; eassumption.
       * (* inside the blocks *)
+        destruct Hs as [Hs Hterm].
         inversion Hs as [|? ? Hx Hr']; subst.
         assert (Hnx : (match x with IReadIds => plan o (i_ver (snd (exec [] o oth x c (p_inst p)))) (i_ids (snd (exec [] o oth x c (p_inst p)))) ms | _ => r end) = r)
           by (destruct x; simpl in Hx; try destruct Hx; reflexivity).
@@ -369,7 +408,10 @@ Proof.
            destruct (i_res (snd E)) eqn:Er1.
            ++ destruct (Hclean _ Er eq_refl) as [A B]. eapply pinv_finished; eassumption.
            ++ destruct (Hrun eq_refl) as [A [[b' B] C]].
-              rewrite A. eapply settle_inv; [exact Er1 | exact B | exact C | exact Hr' | ].
+              assert (Hterm' : terminal_last r).
+              { destruct (terminal_last_tail _ _ Hterm) as [[_ Htx]|Ht']; [|exact Ht'].
+                exfalso. apply (terminal_finishes [] o [] x c (p_inst p) Htx). exact Er1. }
+              rewrite A. eapply settle_inv; [exact Er1 | exact B | exact C | exact Hr' | exact Hterm' | ].
               rewrite (surjective_pairing E) in Hfin'. rewrite A in Hfin'. exact Hfin'.
         -- rewrite Hc1. rewrite He. eapply pinv_finished; eassumption.
     + (* still outside the transaction's first read *)
@@ -395,4 +437,118 @@ Proof.
            rewrite A. unfold settle; simpl. rewrite Er1. split; [reflexivity|]. simpl. rewrite Er1, B.
            split; [rewrite C; discriminate|]. split; [left; reflexivity|exact D].
 Qed.
+
+Definition Inv (s : system) : Prop := reach (s_db s) /\ forall p, In p (s_insts s) -> pinv (s_db s) p.
+
+Lemma sys_step_inv : forall s pid, Inv s -> Inv (sys_step o ms s pid).
+Proof.
+  intros s pid [Hr Hall]. unfold sys_step.
+  destruct (nth_error (s_insts s) pid) as [p|] eqn:En; [|split; assumption].
+  destruct (pstep_inv (map p_lock (others_of pid (s_insts s))) (s_db s) p Hr (Hall p (nth_error_In' _ _ _ En))) as [R [P X]].
+  split; simpl; [exact R|].
+  intros q Hq. destruct (set_nth_In _ _ _ _ _ En Hq) as [->|Hoth]; [exact P|].
+  pose proof (Hall q (others_of_In _ _ _ Hoth)) as Hq0.
+  destruct X as [X|X]; [rewrite X; exact Hq0|].
+  eapply pinv_unlocked; [|exact Hq0].
+  apply (can_exclusive_all _ _ X). apply in_map. exact Hoth.
+Qed.
+
+Lemma steps_inv : forall sched s, Inv s -> Inv (steps o ms sched s).
+Proof.
+  induction sched as [|pid sched IH]; intros s H; [exact H|].
+  unfold steps. simpl. apply IH. apply sys_step_inv. exact H.
+Qed.
+
+Lemma init_inv : forall n, Inv (init_sys n d).
+Proof.
+  intros n. split; [left; reflexivity|]. simpl. intros p Hp. apply repeat_spec in Hp. subst p.
+  split; [reflexivity|]. simpl. split; [reflexivity|left; reflexivity].
+Qed.
+
+(* C11: whatever the schedule and the number of instances, the committed database is the original one
+   (possibly with the bookkeeping table created / upgraded) or exactly the result of ONE sequential run *)
+Theorem at_most_once_reach : forall n sched,
+  reach (s_db (steps o ms sched (init_sys n d))).
+Proof. intros n sched. apply (steps_inv sched (init_sys n d) (init_inv n)). Qed.
+
+Theorem instances_ok_or_err : forall n sched p,
+  In p (s_insts (steps o ms sched (init_sys n d))) ->
+  match i_res (p_inst p) with
+  | Some r => (r = ROk \/ exists e, r = RErr e) /\ i_lock (p_inst p) = Unlocked /\ i_buf (p_inst p) = None
+  | None => p_todo p <> []
+  end.
+Proof.
+  intros n sched p Hp.
+  destruct (steps_inv sched (init_sys n d) (init_inv n)) as [_ Hall]. destruct (Hall p Hp) as [_ H].
+  destruct (i_res (p_inst p)) as [r|].
+  - split; [destruct r; [left; reflexivity|right; eexists; reflexivity]|exact H].
+  - destruct (i_buf (p_inst p)).
+    + destruct H as [_ [[Hs|[_ [pre [t [Hs _]]]]] _]]; rewrite Hs; [discriminate|].
+      destruct pre; discriminate.
+    + destruct H as [_ [Hs|[Hs|[Hs|Hs]]]]; rewrite Hs; discriminate.
+Qed.
 End Conc.
+
+(* ---------- the statements pinned in Properties/C11.v ---------- *)
+Theorem at_most_once : forall o ms k d n sched,
+  ascending ms = true -> versions_i32 ms = true -> at_version k d = true ->
+  let c := s_db (steps o ms sched (init_sys n d)) in
+  c = d \/ c = sql_create_vt d \/ c = bootstrap d \/ c = fst (run [] o ms d).
+Proof.
+  intros o ms k d n sched Ha Hi Hk c.
+  destruct (run_from_k o ms k d Ha Hk) as [Hd _]. rewrite Hd.
+  exact (at_most_once_reach o ms k d Ha Hi Hk n sched).
+Qed.
+
+(* the same, spelled out: the statements of the pending migrations are in the committed database zero
+   times or exactly once, all of them, in order, and so are their version rows *)
+Theorem committed_once : forall o ms k d n sched,
+  ascending ms = true -> versions_i32 ms = true -> at_version k d = true ->
+  let c := s_db (steps o ms sched (init_sys n d)) in
+  exists l, (l = [] \/ l = pending k ms) /\
+    d_applied c = d_applied d ++ stmts_all o l /\
+    recorded_versions c = recorded_versions d ++ map (fun m => Z.of_N (m_version m)) l.
+Proof.
+  intros o ms k d n sched Ha Hi Hk c.
+  destruct (at_most_once_reach o ms k d Ha Hi Hk n sched) as [H|[H|[H|H]]]; fold c in H; rewrite H.
+  - exists []. split; [left; reflexivity|]. unfold stmts_all; simpl. rewrite !app_nil_r. split; reflexivity.
+  - exists []. split; [left; reflexivity|]. destruct (bookkeeping_create d) as [A B].
+    unfold stmts_all; simpl. rewrite !app_nil_r. split; assumption.
+  - exists []. split; [left; reflexivity|]. destruct (bookkeeping_bootstrap d) as [A B].
+    unfold stmts_all; simpl. rewrite !app_nil_r. split; assumption.
+  - exists (pending k ms). split; [right; reflexivity|]. unfold FIN, advanced. simpl. split; [reflexivity|].
+    unfold recorded_versions, db_rows at 1; simpl. rewrite map_app.
+    destruct (bookkeeping_bootstrap d) as [_ B]. unfold recorded_versions in B. rewrite B.
+    f_equal. unfold rows_of. rewrite map_map. reflexivity.
+Qed.
+
+Theorem each_instance_ok_or_err : forall o ms k d n sched p,
+  ascending ms = true -> versions_i32 ms = true -> at_version k d = true ->
+  In p (s_insts (steps o ms sched (init_sys n d))) ->
+  match i_res (p_inst p) with
+  | Some r => (r = ROk \/ exists e, r = RErr e) /\ i_lock (p_inst p) = Unlocked /\ i_buf (p_inst p) = None
+  | None => p_todo p <> []
+  end.
+Proof. intros o ms k d n sched p Ha Hi Hk. exact (instances_ok_or_err o ms k d Ha Hi Hk n sched p). Qed.
+
+(* once everybody has finished, any number (>= 1) of sequential re-runs ends in the sequential result *)
+Theorem retry_converges : forall o ms k d n sched retries,
+  ascending ms = true -> versions_i32 ms = true -> at_version k d = true ->
+  all_finished (steps o ms sched (init_sys n d)) = true ->
+  Nat.iter (S retries) (fun c => fst (run [] o ms c)) (s_db (steps o ms sched (init_sys n d))) = fst (run [] o ms d).
+Proof.
+  intros o ms k d n sched retries Ha Hi Hk _.
+  destruct (run_from_k o ms k d Ha Hk) as [Hd _].
+  assert (Hone : forall c, reach o ms k d c -> fst (run [] o ms c) = fst (run [] o ms d)).
+  { intros c [ -> | [ -> | [ -> | -> ]]].
+    - reflexivity.
+    - destruct (run_from_k o ms k _ Ha (at_version_create _ _ Hk)) as [H1 _]. rewrite H1, Hd. apply advanced_create.
+    - destruct (run_from_k o ms k _ Ha (at_version_bootstrap _ _ Hk)) as [H1 _]. rewrite H1, Hd. apply advanced_bootstrap.
+    - destruct (run_idempotent o ms k d Ha Hi Hk) as [H1 _]. rewrite Hd in H1. unfold FIN. rewrite H1. symmetry. exact Hd. }
+  assert (Hfin : reach o ms k d (fst (run [] o ms d))) by (rewrite Hd; right; right; right; reflexivity).
+  induction retries as [|r IH].
+  - simpl. apply Hone. exact (at_most_once_reach o ms k d Ha Hi Hk n sched).
+  - change (Nat.iter (S (S r)) (fun c => fst (run [] o ms c)) (s_db (steps o ms sched (init_sys n d))))
+      with (fst (run [] o ms (Nat.iter (S r) (fun c => fst (run [] o ms c)) (s_db (steps o ms sched (init_sys n d)))))).
+    rewrite IH. apply Hone. exact Hfin.
+Qed.
